@@ -141,6 +141,25 @@ def _try_pickle(e):
         return None
 
 
+class _Ready:
+    """AsyncResult of a call that the controlled pool has already carried out."""
+
+    def __init__(self, value):
+        self.value = value
+
+    def get(self, timeout=None):
+        return self.value
+
+    def wait(self, timeout=None):
+        pass
+
+    def ready(self):
+        return True
+
+    def successful(self):
+        return True
+
+
 class ControlledPool:
     def __init__(self, owner, processes, initializer=None, initargs=(), maxtasksperchild=None, context=None):
         self.owner = owner
@@ -155,6 +174,9 @@ class ControlledPool:
 
     # -- multiprocessing.Pool surface used by emd -------------------------------------------------
     def starmap(self, func, iterable, chunksize=None):
+        return [r for chunk in self._run_chunks(func, iterable, chunksize) for r in chunk]
+
+    def _run_chunks(self, func, iterable, chunksize=None):
         if self.closed or self.stopped:
             raise ValueError('Pool not running')
         tasks = [tuple(t) for t in iterable]
@@ -182,8 +204,29 @@ class ControlledPool:
                 if exc is None:
                     exc = RuntimeError('%s in worker: %s' % (err[0], err[1]))
                 raise exc
-            results.extend(out)
+            results.append(out)
         return results
+
+    def starmap_async(self, func, iterable, chunksize=None, callback=None, error_callback=None):
+        return _Ready(self.starmap(func, iterable, chunksize))
+
+    def map_async(self, func, iterable, chunksize=None, callback=None, error_callback=None):
+        return _Ready(self.map(func, iterable, chunksize))
+
+    def apply_async(self, func, args=(), kwds=None, callback=None, error_callback=None):
+        return _Ready(self.apply(func, args, kwds))
+
+    def imap_unordered(self, func, iterable, chunksize=1):
+        """Results in COMPLETION order.  With P workers taking chunks from one FIFO queue, the chunk finishing k-th
+        (0-based) can be any chunk with index < k + P that has not finished yet; the owner picks the order
+        (default: the feasible order that is furthest from submission order, so that code relying on the order of
+        an unordered map is exposed whenever P >= 2)."""
+        per_chunk = self._run_chunks(func, [(x,) for x in iterable], chunksize)
+        order = self.owner.completion(self.pool_index, len(per_chunk), self.P)
+        if sorted(order) != list(range(len(per_chunk))) or any(c >= k + self.P for k, c in enumerate(order)):
+            raise HarnessError('completion order %r is not feasible for %d chunks on %d workers' % (order, len(per_chunk), self.P))
+        self.owner.pools[self.pool_index].setdefault('unordered', []).append(len(per_chunk))
+        return iter([r for c in order for r in per_chunk[c]])
 
     def map(self, func, iterable, chunksize=None):
         return self.starmap(func, [(x,) for x in iterable], chunksize)
@@ -231,10 +274,25 @@ class ControlledMP:
     """Drop-in for the `mp` global of emd.sift.  `schedule` = list (one entry per pool created, in creation order)
     of worker-index sequences, one entry per chunk dispatched through that pool; missing entries default to worker 0."""
 
-    def __init__(self, schedule=None):
+    def __init__(self, schedule=None, completion='latest-first'):
         self.schedule = schedule or []
+        self.completion_mode = completion
         self.pools = []
         self.log = []
+
+    def completion(self, pool_index, n, P):
+        """Completion order of the n chunks of an unordered map (see ControlledPool.imap_unordered)."""
+        if self.completion_mode == 'submission' or P < 2:
+            return list(range(n))
+        if isinstance(self.completion_mode, (list, tuple)):
+            return list(self.completion_mode[:n]) if len(self.completion_mode) >= n else list(range(n))
+        # latest-first: always complete the highest-indexed chunk that may be running
+        done, order = set(), []
+        for k in range(n):
+            c = max(i for i in range(min(n, k + P)) if i not in done)
+            done.add(c)
+            order.append(c)
+        return order
 
     def Pool(self, processes=None, initializer=None, initargs=(), maxtasksperchild=None, context=None):
         pool = ControlledPool(self, processes, initializer, initargs, maxtasksperchild, context)
@@ -264,6 +322,14 @@ class SerialPool:
 
     def map(self, func, iterable, chunksize=None):
         return [func(x) for x in iterable]
+
+    def imap(self, func, iterable, chunksize=1):
+        return iter([func(x) for x in iterable])
+
+    imap_unordered = imap          # one worker: completion order is submission order
+
+    def apply(self, func, args=(), kwds=None):
+        return func(*args, **(kwds or {}))
 
     def close(self):
         pass
